@@ -11,6 +11,8 @@ mod hist;
 mod docs;
 mod alloc;
 mod sched;
+mod deriv;
+mod families;
 mod checks;
 
 fn usage() -> ! {
@@ -41,6 +43,19 @@ fn main() {
         "replay" => {
             if args.len() < 3 { usage(); }
             std::process::exit(checks::replay(&args[2]));
+        }
+        "derive" => {
+            // derive <grammar_id> <token indices...>: show the reference derivations (debugging aid)
+            let all: Vec<families::FamGrammar> = families::g1().into_iter().chain(families::g2()).chain(families::g3()).collect();
+            let f = all.iter().find(|f| f.id == args[2]).expect("grammar id");
+            let ix: Vec<usize> = args[3..].iter().map(|a| a.parse().unwrap()).collect();
+            let (text, toks) = checks::c03::text_of(f, &ix, " ");
+            println!("grammar: {}", f.g.to_json());
+            if let Err(e) = lang::generate(&f.g.to_json(), tree_sitter_generate::OptLevel::default()) { println!("GENERATE ERROR: {}", e); }
+            println!("text: {:?} toks: {:?}", String::from_utf8_lossy(&text), toks);
+            let rg = deriv::RefGrammar::from_json(&f.g.to_value());
+            let d = deriv::Deriver::new(&rg, &toks);
+            for (r, dp) in d.roots() { println!("  dp={} {}", dp, deriv::render(&r)); }
         }
         "probe" => {
             // probe <lang> <text>: print the explicit tree with indices (debugging aid)
